@@ -78,7 +78,7 @@ func (server *Server) Get(conn *redis.Conn, key string) (*redis.Message, error) 
 	}
 	stringData, ok := record.Data.(string)
 	if ok {
-		return redis.NewStringMessage(stringData), nil
+		return redis.NewBulkMessage(stringData), nil
 	}
 	return redis.NewNilMessage(), nil
 }
